@@ -320,12 +320,33 @@ def run(pid, tier, seed, replay):
     scns += [cross_sends(rng) for _ in range(n)]
     scns += [shared_enum(rng) for _ in range(n // 2)]
     rng.shuffle(scns)
-    # the two-instance exhaustive model: all interleavings of two machines of one small definition
+    # the two-instance exhaustive model: two machines of one small definition, outside calls on either and sends from the
+    # callbacks of one to the other (run at once when the other is idle, queued when it is busy further down the chain);
+    # TLC checks every invariant and PropIsolation on it and its behaviours are replayed on two real instances
+    def small(k, max_cbs):
+        fam = []
+        while len(fam) < k:
+            m = gen.family_member(rng, nstates=2, dense=0.6, guards=False, validators=False, nested=True, max_cbs=max_cbs, ntrans=1)
+            if m["classes"][0]["cbs"]:
+                m["opts"] = [o for o in m["opts"] if not o["allow"]]
+                m["gvs"], m["evs"], m["nsends"] = m["gvs"][:1], m["evs"][:2], m["nsends"][:1]
+                fam.append(m)
+        return fam
+    runs = [({"NI": 2, "MaxCalls": 1, "MaxFails": 0, "MaxActs": 0, "MaxX": 2}, 2, 2)]
+    if not quick:
+        runs += [({"NI": 2, "MaxCalls": 2, "MaxFails": 0, "MaxActs": 0, "MaxX": 1}, 4, 2),
+                 ({"NI": 2, "MaxCalls": 1, "MaxFails": 1, "MaxActs": 0, "MaxX": 1}, 4, 3),
+                 ({"NI": 2, "MaxCalls": 1, "MaxFails": 0, "MaxActs": 0, "MaxX": 2}, 4, 3)]
+    for consts, k, max_cbs in runs:
+        _cov, hs = ec.mc_run(chk, small(k, max_cbs), consts, required=("MCXCall", "MCXRet", "MCAssign"),
+                             label="two instances", hist_limit=300 if quick else 4000, timeout=3000)
+        ec.run_validate(chk, hs, "isolation: two-instance spec-behaviour replay", shards=4 if quick else 12, featurize=featurize)
     ec.run_validate(chk, scns, "isolation: programs", shards=5 if quick else 12, featurize=featurize)
     chk.coverage["rule"] = ("programs of 6-16 steps interleaving class statements (2-3 independent classes; classes sharing one class "
                             "name and method names with different async-ness; subclasses adding callbacks; subclasses extending "
                             "inherited states; classes whose callback names are other classes' state and event names; attribute-bag "
                             "models and listeners of one Python class; classes built with States.from_enum over one shared Enum; "
                             "machines whose callbacks send events to each other), instantiation of up to 3 machines and events on them; all instances and all class "
-                            "objects are read back after every step")
+                            "objects are read back after every step; exhaustive two-instance model (outside calls on either, sends between them) with "
+                            "its behaviours replayed on two real instances")
     return chk.finish()
